@@ -18,15 +18,56 @@ Theorem C04_nil : forall c ls s,
 Proof. exact sup_c04_nil. Qed.
 
 (* SIGHUP, unknown signals, nil exits and cancellation errors never make Run() return: whenever
-   Run() returns, a shutdown trigger (INT/TERM, Shutdown(), parent cancel, ShutdownSender trigger,
-   a real runnable error) has occurred before, or the start-up deadline can fire. *)
+   Run() returns, a shutdown trigger (`is_trigger c`: INT/TERM, Shutdown(), parent cancel, a trigger of a runnable
+   that IS a ShutdownSender, a real runnable error - nothing else) has occurred before; the ONLY excuse is the
+   genuine start-up-timeout path: the value returned is the start-up timeout error (and the deadline can fire). *)
 Theorem C04_needs_cause : forall c ls s,
   run (step c) (init c) ls = Some s -> c04_needs_cause c (obs_trace obs ls) = true.
 Proof. exact sup_c04_needs_cause. Qed.
 
+(* The SIGHUP clause on the model, for EVERY configuration (also startup_may_fire = true): on a schedule without
+   a trigger event on which no start-up deadline has fired (ghost flag su_fired, see C01_su_fired), the shutdown
+   has not started, the supervisor has not cancelled its context, and Run() has neither returned nor fixed a
+   result - whatever else happened: SIGHUPs and unknown signals consumed, reload passes, runnables exiting
+   with nil or with errors that are / wrap a cancellation, state changes, triggers offered by runnables that
+   are not ShutdownSenders. *)
+Theorem C04_hup : forall c ls s,
+  run (step c) (init c) ls = Some s ->
+  existsb (is_trigger c) (obs_trace obs ls) = false -> su_fired (aux s) = false ->
+  sd s = SdNot /\ own_cancel s = false /\ main_res (main s) = None /\ (forall r, main s <> MReturned r).
+Proof. exact sup_c04_hup. Qed.
+
 Print Assumptions C04_provenance.
 Print Assumptions C04_nil.
 Print Assumptions C04_needs_cause.
+Print Assumptions C04_hup.
+
+(* non-vacuity of C04_hup with a start-up deadline that CAN fire: SIGHUP (consumed: a reload pass runs), an
+   unknown signal, a nil exit, an exit with a cancellation error, a trigger offered by a runnable that is not a
+   ShutdownSender - Run() is still in reap() *)
+Definition c04_hup_cfg : config :=
+  {| specs := [ {| stateable := false; reloadable := true; rsender := false; ssender := false;
+                   stop_style := StopNonBlocking; run_exit := ExitFree; held_sub := false |};
+                {| stateable := false; reloadable := false; rsender := false; ssender := false;
+                   stop_style := StopUntilRunDone; run_exit := ExitFree; held_sub := false |} ];
+     startup_may_fire := true; shutdown_may_fire := true |}.
+Definition c04_hup_sched : list label :=
+  [LRunEnter; LRunEntered; LLaunch 0; LRunCall 0; LLaunch 1; LRunCall 1;
+   LCall 1 (OpSignal SigHup); LSigPut 1; LRet 1 (OpSignal SigHup); LReapSig; LRmAccept SndHup; LReloadCall 0; LReloadRet 0;
+   LCall 2 (OpSignal SigOther); LSigPut 2; LReapSig; LRet 2 (OpSignal SigOther);
+   LRunRet 0 None; LRunRet 1 (Some (5, true)); LTrigS 1; LCall 3 OpReloadAll].
+Example C04_ex_hup :
+  exists s, run (step c04_hup_cfg) (init c04_hup_cfg) c04_hup_sched = Some s /\
+            startup_may_fire c04_hup_cfg = true /\
+            existsb (is_trigger c04_hup_cfg) (obs_trace obs c04_hup_sched) = false /\ su_fired (aux s) = false /\
+            main s = MReap /\ sd s = SdNot /\ passes s = 1.
+Proof. eexists. split; [vm_compute; reflexivity|]. repeat split; vm_compute; reflexivity. Qed.
+(* the monitor is not blinded by startup_may_fire = true *)
+Example C04_ex_needs_cause_rejects :
+  c04_needs_cause c04_hup_cfg [ERunEnter; ERunCall 0; ECall 1 (OpSignal SigHup); ERunRet 0 None; ETrigS 1;
+                               EStopCall 0; EStopRet 0; ERunReturn ResNil] = false /\
+  c04_needs_cause c04_hup_cfg [ERunEnter; ERunCall 0; ERunReturn ResTimeout] = true.
+Proof. split; vm_compute; reflexivity. Qed.
 
 (* non-vacuity: a schedule in which a runnable's real error becomes Run()'s result *)
 Definition c04_cfg : config :=
@@ -34,12 +75,12 @@ Definition c04_cfg : config :=
                    stop_style := StopNonBlocking; run_exit := ExitFree; held_sub := false |} ];
      startup_may_fire := false; shutdown_may_fire := false |}.
 Definition c04_sched : list label :=
-  [LLaunch 0; LRunCall 0; LRunRet 0 (Some (7, false)); LErrSend 0; LReapErr; LMainShutdown;
+  [LRunEnter; LRunEntered; LLaunch 0; LRunCall 0; LRunRet 0 (Some (7, false)); LErrSend 0; LReapErr; LMainShutdown;
    LStopCall 0; LStopRet 0; LSdCancel; LSdWgDone; LMainReturn (ResErr 7)].
 Example C04_ex_schedule :
   exists s, run (step c04_cfg) (init c04_cfg) c04_sched = Some s /\
             obs_trace obs c04_sched =
-            [ERunCall 0; ERunRet 0 (Some (7, false)); EStopCall 0; EStopRet 0; ERunReturn (ResErr 7)].
+            [ERunEnter; ERunCall 0; ERunRet 0 (Some (7, false)); EStopCall 0; EStopRet 0; ERunReturn (ResErr 7)].
 Proof. eexists. split; vm_compute; reflexivity. Qed.
 Example C04_ex_rejects_foreign_error :
   c04_holdsb c04_cfg [ERunCall 0; ERunRet 0 (Some (7, true)); ERunReturn (ResErr 7)] = false.
@@ -59,14 +100,14 @@ Proof. exact sup_c04_reports. Qed.
    runnable's Run really returned - or the start-up timeout, only when that deadline can fire. *)
 Theorem C04_reports_decided : forall c ls s r,
   run (step c) (init c) ls = Some s -> main_res (main s) = Some r ->
-  existsb is_nonfail_trigger (obs_trace obs ls) = false ->
+  existsb (is_nonfail_trigger c) (obs_trace obs ls) = false ->
   reports_err c (obs_trace obs ls) r.
 Proof. exact sup_c04_reports_decided. Qed.
 
 (* ... and that r is what Run() returns on every continuation, whatever triggers arrive later. *)
 Theorem C04_reports_final : forall c ls1 s1 r ls2 s2 r',
   run (step c) (init c) ls1 = Some s1 -> main_res (main s1) = Some r ->
-  existsb is_nonfail_trigger (obs_trace obs ls1) = false ->
+  existsb (is_nonfail_trigger c) (obs_trace obs ls1) = false ->
   run (step c) s1 ls2 = Some s2 -> main s2 = MReturned r' ->
   r' = r /\ reports_err c (obs_trace obs ls1) r.
 Proof. exact sup_c04_reports_final. Qed.
@@ -78,14 +119,14 @@ Print Assumptions C04_reports_final.
 (* non-vacuity: in c04_sched_pre Main reacts to the failure (LReapErr) before any other trigger; a
    Shutdown() call and a SIGTERM arriving afterwards do not change the result *)
 Definition c04_sched_pre : list label :=
-  [LLaunch 0; LRunCall 0; LRunRet 0 (Some (7, false)); LErrSend 0; LReapErr].
+  [LRunEnter; LRunEntered; LLaunch 0; LRunCall 0; LRunRet 0 (Some (7, false)); LErrSend 0; LReapErr].
 Definition c04_sched_post : list label :=
   [LCall 1 OpShutdown; LCallerGo 1; LCall 2 (OpSignal SigTerm); LSigPut 2; LMainShutdown;
    LStopCall 0; LStopRet 0; LSdCancel; LSdWgDone; LMainReturn (ResErr 7)].
 Example C04_ex_reports_hyps :
   exists s1 s2, run (step c04_cfg) (init c04_cfg) c04_sched_pre = Some s1 /\
                 main_res (main s1) = Some (ResErr 7) /\
-                existsb is_nonfail_trigger (obs_trace obs c04_sched_pre) = false /\
+                existsb (is_nonfail_trigger c04_cfg) (obs_trace obs c04_sched_pre) = false /\
                 run (step c04_cfg) s1 c04_sched_post = Some s2 /\ main s2 = MReturned (ResErr 7).
 Proof.
   eexists. eexists. split; [vm_compute; reflexivity|]. split; [vm_compute; reflexivity|].
@@ -94,7 +135,7 @@ Qed.
 (* the hypothesis matters: when SIGTERM is consumed first, Run() returns nil although a runnable
    failed *)
 Definition c04_sched_term : list label :=
-  [LLaunch 0; LRunCall 0; LCall 2 (OpSignal SigTerm); LSigPut 2; LRunRet 0 (Some (7, false)); LErrSend 0;
+  [LRunEnter; LRunEntered; LLaunch 0; LRunCall 0; LCall 2 (OpSignal SigTerm); LSigPut 2; LRunRet 0 (Some (7, false)); LErrSend 0;
    LReapSig; LMainShutdown; LStopCall 0; LStopRet 0; LSdCancel; LSdWgDone; LMainReturn ResNil].
 Example C04_ex_reports_other_trigger :
   exists s, run (step c04_cfg) (init c04_cfg) c04_sched_term = Some s /\ main s = MReturned ResNil /\
